@@ -234,6 +234,60 @@ def explore_cfg(item):
     return st
 
 
+def callback_history(executor_name):
+    """Histories of compute calls that share callback objects: a callback registered through the context manager plus an
+    explicit callbacks list reused for several computes.  In EVERY compute each callback must see each event exactly once."""
+    import cubed
+    import cubed.array_api as xp
+    from cubed.runtime.create import create_executor
+    from ..scope import mkdata
+
+    probs = []
+    for reuse_list in (True, False):
+        for with_ctx in (True, False):
+            w = World()
+            try:
+                spec = make_spec(w)
+                ex = create_executor(executor_name)
+                ctx_cb, list_cb = Recorder(), Recorder()
+                shared = [list_cb]
+                arrays = [xp.negative(xp.asarray(mkdata((4,), "float64", k, 0), chunks=(2,), spec=spec)) for k in range(3)]
+
+                def one(i, inside):
+                    cbs = shared if reuse_list else [list_cb]
+                    before = (len(ctx_cb.events), len(list_cb.events))
+                    arrays[i].compute(executor=ex, callbacks=cbs)
+                    for nm, rec, b, expect in (("context-manager callback", ctx_cb, before[0], inside), ("explicit callback", list_cb, before[1], True)):
+                        new = rec.events[b:]
+                        sub = type("R", (), {})()
+                        sub.events, sub.plan, sub.dag = new, rec.plan, getattr(rec, "dag", None)
+                        if not expect:
+                            if new:
+                                probs.append(("callback-after-unregister", f"{nm} received {len(new)} events in compute #{i + 1} although it is not registered (reuse_list={reuse_list})"))
+                            continue
+                        for k, t in judge(sub):
+                            probs.append((k, f"compute #{i + 1} of a history sharing callbacks (reuse_list={reuse_list}, context manager={with_ctx}): {nm}: {t}"))
+
+                if with_ctx:
+                    with ctx_cb:
+                        one(0, True)
+                        one(1, True)
+                    one(2, False)
+                else:
+                    one(0, False)
+                    one(1, False)
+                    one(2, False)
+            finally:
+                w.dispose()
+    seen = set()
+    out = []
+    for k, t in probs:
+        if k not in seen:
+            seen.add(k)
+            out.append((k, t))
+    return executor_name, out
+
+
 def real_run(item):
     cfg, e = item
     return cfg, e, run_once(cfg, None, 0, executor=e)
@@ -244,6 +298,9 @@ def sig(cfg, kind):
 
 
 def replay_case(case):
+    if case.get("history"):
+        _, ps = callback_history(case["executor"])
+        return [Problem(dict(kind=k, history="shared-callbacks", executor=case["executor"]), case, t) for k, t in ps]
     if case.get("executor"):
         obs = run_once(case["cfg"], None, 0, executor=case["executor"])
     else:
@@ -281,6 +338,12 @@ def run(ctx):
         nreal += 1
         for k, t in obs["probs"]:
             ctx.problem(dict(sig(cfg, k), executor=e), dict(cfg=cfg, executor=e), f"{t} [real executor {e}, cfg={cfg}]")
+    nhist = 0
+    for e, ps in ctx.pmap(callback_history, ["single-threaded", "threads"]):
+        nhist += 12
+        for k, t in ps:
+            ctx.problem(dict(kind=k, history="shared-callbacks", executor=e), dict(history="shared-callbacks", executor=e), f"{t} [executor {e}]")
+    ctx.set("callback_history_computes", nhist)
     ctx.set("evaluations", execs + nreal)
     ctx.set("distinct_nontrivial", orders + nreal)
     ctx.set("virtual_executions", execs)
